@@ -690,6 +690,21 @@ class ProgGen:
                 src += self.tag(f"block {b}") + inner + (self.out("block.super") if r.random() < 0.5 else "") \
                     + self.tag("endblock")
             return src
+        if self.allow_extends and self.allow_partials and r.random() < 0.06:
+            # several layouts rendered as partials by ONE render: siblings that extend the same
+            # parent, a child and then its base (block stacks must not survive from one to the next)
+            depth_chain = r.randint(2, 3)
+            leaf = self.layout_chain(depth_chain)
+            parent = LAYOUT_NAMES[depth_chain - 2]
+            sib = "layouts/sibling"
+            ssrc = self.tag(f"extends '{parent}'")
+            for b in r.sample(["head", "content", "foot"], r.randint(1, 3)):
+                ssrc += self.tag(f"block {b}") + f"S-{b} " + (self.out("block.super") if r.random() < 0.5 else "") \
+                    + self.tag("endblock")
+            self.partials[sib] = ssrc
+            order = [r.choice([leaf, sib, LAYOUT_NAMES[0], parent]) for _ in range(r.randint(2, 4))]
+            how = r.choice(["include", "include", "render"])
+            return "".join(self.tag(f"{how} '{n}'") + "|" for n in order) + self.block(1, 1)
         return self.block(0, r.randint(2, 7))
 
 
